@@ -6,12 +6,14 @@ CFG = {
     "level": "exploration",
     "fs_shim": True,
     "gates": [
-        {"files": ["banyand/measure/tstable.go", "banyand/measure/snapshot.go", "banyand/measure/introducer.go", "banyand/measure/flusher.go", "banyand/measure/merger.go",
+        {"files": ["banyand/measure/tstable.go", "banyand/measure/introducer.go", "banyand/measure/flusher.go", "banyand/measure/merger.go",
                    "banyand/measure/gc.go", "banyand/measure/part.go", "banyand/measure/query.go", "banyand/measure/query_batch.go",
-                   "banyand/stream/tstable.go", "banyand/stream/snapshot.go", "banyand/stream/introducer.go", "banyand/stream/flusher.go", "banyand/stream/merger.go",
+                   "banyand/stream/tstable.go", "banyand/stream/introducer.go", "banyand/stream/flusher.go", "banyand/stream/merger.go",
                    "banyand/stream/gc.go", "banyand/stream/part.go", "banyand/stream/query.go", "banyand/stream/block_scanner.go", "banyand/stream/query_by_ts.go",
                    "banyand/stream/query_by_idx.go", "banyand/stream/query_vectorized.go",
                    "pkg/run/goroutine.go", "pkg/timestamp/scheduler.go"], "mode": "A"},
+        # the snapshot pin itself: also a preemption point right after every explicit unlock (a pointer read under the lock and used after it)
+        {"files": ["banyand/measure/snapshot.go", "banyand/stream/snapshot.go"], "mode": "A", "after_unlock": True},
         # cooperative locks in the segment life cycle (as in C19): a query or writer contending for a segment lock parks instead of blocking inside the runtime
         {"files": ["banyand/internal/storage/segment.go", "banyand/internal/storage/tsdb.go", "banyand/internal/storage/rotation.go"], "mode": "B"},
     ],
